@@ -239,7 +239,7 @@ ltostr(char *restrict buf, size_t bsz, long int v,
 
 	if (UNLIKELY((negp = v < 0))) {
 		v = -v;
-	} else if (!v) {
+	} else if (!v && bp < ep) {
 		*bp++ = C(0U);
 		range--;
 	}
@@ -251,16 +251,16 @@ ltostr(char *restrict buf, size_t bsz, long int v,
 		*bp++ = C(x);
 	}
 	/* fill up with padding */
-	if (UNLIKELY(pad)) {
+	if (UNLIKELY(pad && pad <= 2U)) {
 		static const char pads[] = " 0";
 		const char p = pads[2U - pad];
 
-		while (range-- > 0) {
+		while (range-- > 0 && bp < ep) {
 			*bp++ = p;
 		}
 	}
 	/* write the sign */
-	if (UNLIKELY(negp)) {
+	if (UNLIKELY(negp) && bp < ep) {
 		*bp++ = '-';
 	}
 
@@ -545,7 +545,9 @@ __strfdtdur(
 
 		case DT_SPFL_N_DSTD:
 			bp += ltostr(bp, eo - bp, pre.d, -1, DT_SPPAD_NONE);
-			*bp++ = 'd';
+			if (bp < eo) {
+				*bp++ = 'd';
+			}
 			goto bizda_suffix;
 
 		case DT_SPFL_N_DCNT_MON: {
@@ -557,7 +559,7 @@ __strfdtdur(
 			bp += ltostr(bp, eo - bp, pre.d, rng, spec.pad);
 		}
 		bizda_suffix:
-			if (spec.bizda) {
+			if (spec.bizda && bp < eo) {
 				/* don't print the b after an ordinal */
 				dt_bizda_param_t bprm;
 
@@ -596,7 +598,9 @@ __strfdtdur(
 				pre.S += __strf_tot_corr(dur);
 			}
 			bp += ltostr(bp, eo - bp, pre.S, -1, DT_SPPAD_NONE);
-			*bp++ = 's';
+			if (bp < eo) {
+				*bp++ = 's';
+			}
 			break;
 
 		case DT_SPFL_N_SEC:
